@@ -465,6 +465,29 @@ fn main() {
                     None => "ERR".to_string(),
                 }
             }
+            // tmaint2 <n> (<first> <last> <unresolved 0|1> <known now 0|1> <replica on a removed node 0|1> <node re-created 0|1>)*n <any node removed 0|1>:
+            // maintenance with the maps ClusterState would pass (re-created nodes share the object of the current-nodes map)
+            "tmaint2" => {
+                let n = num(1) as usize;
+                let mut t = vh::Tablets::new();
+                let (mut removed, mut known, mut recreated): (Vec<u128>, Vec<u128>, Vec<u128>) = (Vec::new(), Vec::new(), Vec::new());
+                let any_removed = num(2 + 6 * n) == 1;
+                for i in 0..n {
+                    let b = 2 + 6 * i;
+                    let (f, l, unresolved, known_now, on_removed, rec) = (num(b) as i64, num(b + 1) as i64, num(b + 2) == 1, num(b + 3) == 1, num(b + 4) == 1, num(b + 5) == 1);
+                    let id = 1000 + i as u128;
+                    t.add_on(f, l, id, !unresolved);
+                    if known_now { known.push(id); }
+                    if on_removed && any_removed { removed.push(id); }
+                    if rec { recreated.push(id); }
+                }
+                if any_removed && removed.is_empty() { removed.push(9999); }
+                catch_unwind(std::panic::AssertUnwindSafe(|| {
+                    t.maintain(&removed, &known, &recreated);
+                    let left: Vec<String> = (0..t.len()).map(|i| { let (a, b, _) = t.get(i); format!("{},{}{}", a, b, if t.is_unresolved(i) { "!" } else { "" }) }).collect();
+                    format!("after={} left={}", t.flag(), if left.is_empty() { "-".to_string() } else { left.join(";") })
+                })).unwrap_or("PANIC (perform_maintenance panicked)".into())
+            }
             "token_new" => Token::new(num(1) as i64).value().to_string(),
             _ => "UNKNOWN".to_string(),
         };
